@@ -2,3 +2,15 @@
 int g_fail;
 int g_nerr;
 xrl_error g_err_obj;
+xrl_error **g_watch;
+
+/* ghost version of xrl_propagate_error for the lemma harnesses: moves an already stored error into dest */
+void xrl_propagate_error(xrl_error **dest, xrl_error *src)
+{
+  __CPROVER_assert(src != NULL, "xrl_propagate_error: src is an error");
+  if (dest) {
+    if (dest == g_watch) g_fail++;
+    __CPROVER_assert(*dest == NULL, "no error is stored over an existing one");
+    if (*dest == NULL) *dest = src;
+  }
+}
